@@ -1,3 +1,4 @@
-CONSTANT Want = {"C09_Returns", "C09_ResultsMatchScan", "C09_ResultsMatchWalker"}
+CONSTANT Want = {"C09_Returns", "C09_ResultsMatchScan", "C09_ResultsMatchWalker", "Conforms"}
+CONSTANTS Shape = "small" MaxEdits = 0 Budget = 0 LinkRepaired = TRUE
 SPECIFICATION TSpec
 CHECK_DEADLOCK FALSE
